@@ -79,6 +79,17 @@ func backupEngine() {
 				break
 			}
 			want := hashStr(dumpTx(rtx))
+			size0 := rtx.Size() // the size is a property of the snapshot: it must not move with later commits
+			// a sibling reader on the same version, closed before the writers run: closing it must
+			// not deregister the backup reader
+			var sibling *bolt.Tx
+			if sib, err := e.DB.Begin(false); err == nil {
+				if rng.Intn(2) == 0 {
+					_ = sib.Rollback()
+				} else {
+					sibling = sib // closed after the copy
+				}
+			}
 			age := rng.Intn(4)
 			for a := 0; a < age && ok; a++ {
 				ok = run(oneTx())
@@ -112,6 +123,9 @@ func backupEngine() {
 				}
 			}
 			_ = rtx.Rollback()
+			if sibling != nil {
+				_ = sibling.Rollback()
+			}
 			rep.count(mode)
 			if err != nil {
 				rep.violation("C14", "monitor", "backup-fails", fmt.Sprintf("%s fails: %v", mode, err), rp)
@@ -119,6 +133,9 @@ func backupEngine() {
 			}
 			if n != size {
 				rep.violation("C14", "monitor", "backup-size", fmt.Sprintf("%s produced %d bytes, the transaction reports Size() = %d", mode, n, size), rp)
+			}
+			if size != size0 || n != size0 {
+				rep.violation("C14", "monitor", "backup-size-moves", fmt.Sprintf("%s: the read transaction reported Size() = %d when it began, %d at copy time (%d commits in between), %d bytes were written", mode, size0, size, age, n), rp)
 			}
 			cdb, err := bolt.Open(copyPath, 0o600, &bolt.Options{ReadOnly: true, PreLoadFreelist: true, Timeout: time.Second})
 			if err != nil {
@@ -136,6 +153,16 @@ func backupEngine() {
 			}
 			if dec, okd := leanDecode(copyPath); !okd || leanVerdictBad(dec) || dec[1] != "dump:"+want {
 				rep.violation("C14", "monitor", "backup-accounting", fmt.Sprintf("independent reader on the copy: %v", dec[min(len(dec)-1, 1):]), rp)
+			}
+			// every page of the copy is accounted for: the copy is exactly as long as the high water
+			// mark of the database inside it
+			if dec, okd := leanDecode(copyPath); okd && len(dec) > 0 {
+				var ps, txid, root, pgid, fsz int64
+				var fl uint64
+				fmt.Sscanf(dec[0], "ok ps=%d txid=%d root=%d pgid=%d freelist=%d filesize=%d", &ps, &txid, &root, &pgid, &fl, &fsz)
+				if ps > 0 && fsz != pgid*ps {
+					rep.violation("C14", "monitor", "backup-length", fmt.Sprintf("%s: the copy is %d bytes long, the database inside it ends at page %d (%d bytes): the rest is not accounted for", mode, fsz, pgid, pgid*ps), rp)
+				}
 			}
 			// a backup is a whole database file: BOTH meta pages must be valid version-2 metas
 			// (else the copy has lost its tolerance to one damaged meta page, C11)
